@@ -336,7 +336,7 @@ def fixed_grids(chk):
         for k, s in enumerate(tr.steps):
             ok = ok and same(s['t'], T[k]) and same(s['h'], T[k + 1] - T[k]) and same(s['y'], states[k]) and same(states[k + 1], s['yh'])
         oid = 'C10/(3)fixed-grid/%s' % ('ham' if ham else 'generic')
-        (chk.ok if ok else (lambda o, d: chk.fail(o, d, None)))(oid, 'states[0] = y0 and states[k+1] = step(t_k, states[k], t_{k+1} - t_k) for any monotone grid (signed h: a descending grid integrates backward)')
+        (chk.ok if ok else (lambda o, d: chk.fail(o, d, _replay_fixed_grid())))(oid, 'states[0] = y0 and states[k+1] = step(t_k, states[k], t_{k+1} - t_k) for any monotone grid (signed h: a descending grid integrates backward)')
 
 
 def symplectic_grid(chk):
@@ -360,7 +360,43 @@ def symplectic_grid(chk):
         sp._recursive_update_poly, sp._get_tao_omega = saved
     ok = same(traj[0], y0) and len(calls) == 2 and same(calls[0][1], T[1] - T[0]) and same(calls[1][1], T[2] - T[1])
     ok = ok and same(calls[0][0][:6], y0) and same(calls[0][0][6:], y0)
-    (chk.ok if ok else (lambda o, d: chk.fail(o, d, None)))('C10/(3)symplectic-grid', 'first row = y0; step k uses dt = t_{k+1} - t_k (signed) on the extended state started at (y0, y0)')
+    (chk.ok if ok else (lambda o, d: chk.fail(o, d, _replay_symplectic_grid())))('C10/(3)symplectic-grid', 'first row = y0; step k uses dt = t_{k+1} - t_k (signed) on the extended state started at (y0, y0)')
+
+
+def _replay_symplectic_grid():
+    return D.HAM_PRELUDE + '''
+from hiten.algorithms.integrators.symplectic import _ExtendedSymplectic
+hs = make_hamsys(0.5)
+grid = np.array([0.0, 0.02, 0.1, 0.4, 0.45, 1.0])
+integ = _ExtendedSymplectic(order=4)
+sol = integ.integrate(hs, Y0, grid)
+worst = 0.0
+for k in (2, 3):
+    fine = np.linspace(0.0, grid[k], 400)
+    ref = _ExtendedSymplectic(order=4).integrate(hs, Y0, fine).states[-1]
+    worst = max(worst, float(np.max(np.abs(sol.states[k] - ref))))
+first_ok = np.allclose(sol.states[0], Y0)
+_verdict(worst > 1e-4 or not first_ok, interior_sample_deviation=worst, first_sample_is_y0=bool(first_ok))
+'''
+
+
+def _replay_fixed_grid():
+    return '''
+from hiten.algorithms.integrators.rk import RungeKutta
+from hiten.algorithms.dynamics.rhs import create_rhs_system
+import numba
+@numba.njit
+def rhs(t, y):
+    return np.array([y[1], -y[0]])
+sysm = create_rhs_system(rhs, dim=2, name='oscillator')
+bad = []
+for grid in (np.array([0.0, 0.02, 0.1, 0.4, 0.45, 1.0]), np.array([1.0, 0.45, 0.4, 0.1, 0.02, 0.0])):
+    sol = RungeKutta(order=8).integrate(sysm, np.array([1.0, 0.0]), grid)
+    t = grid - grid[0]
+    err = float(np.max(np.abs(sol.states[:, 0] - np.cos(t))))
+    if err > 1e-6 or not np.allclose(sol.states[0], [1.0, 0.0]) or not np.array_equal(sol.times, grid): bad.append((grid.tolist(), err))
+_verdict(bool(bad), problems=bad)
+'''
 
 
 def main():
